@@ -308,7 +308,7 @@ def collect_r(ctx, results, props, stage_name, count_key="cases", nontrivial_key
     agg = {"cases": 0, "distinct_cases": 0, "items": 0, "error_items": 0, "runs_with_error": 0, "runs_with_skip": 0,
            "runs_with_multibyte": 0, "definitions": 0, "violation_count": 0, "traced_runs": 0, "read_events": 0, "attempts": 0,
            "restarts": 0, "max_reads_per_examined_byte": 0.0, "splits": 0, "stopped_mid_stream": 0, "chunk_schedules": 0,
-           "determinedness_inconclusive": 0, "inputs": {}}
+           "determinedness_inconclusive": 0, "inputs": {}, "callback_invocations": 0, "runs_with_callbacks": 0, "callback_bumps": 0}
     for r in results:
         if r.get("inconclusive"):
             ctx.inconclusive.append(f"{stage_name} shard {r['shard']}: {r['inconclusive']}")
@@ -318,7 +318,8 @@ def collect_r(ctx, results, props, stage_name, count_key="cases", nontrivial_key
             ctx.add_violation({"property": ctx.prop, "level": "R", "rule": "shard-crashed", "stage": stage_name,
                                "detail": f"shard {r['shard']} died rc={r['rc']} signal={r['signal']}: {r['output'][-600:]}"})
             continue
-        for k in ("cases", "distinct_cases", "items", "error_items", "runs_with_error", "runs_with_skip", "runs_with_multibyte", "definitions", "traced_runs"):
+        for k in ("cases", "distinct_cases", "items", "error_items", "runs_with_error", "runs_with_skip", "runs_with_multibyte", "definitions", "traced_runs",
+                  "callback_invocations", "runs_with_callbacks", "callback_bumps"):
             agg[k] += r.get(k, 0)
         rt = r.get("read_trace", {})
         agg["read_events"] += rt.get("read_events", 0)
@@ -367,6 +368,185 @@ def obs_join(ctx, cdir, tag_a, tag_b, mode, nshards, what):
                            "configs": [tag_a, tag_b], "mode": mode, "corpus_dir": cdir,
                            "detail": f"{what}: {ndiff} case(s) of shard {i} observed differently (first: case #{k}); replay prints both streams"})
     return total
+
+
+
+# ----------------------------------------------------------------------------------------------
+# apidrv (fixed definitions, public API models) and sanitizer builds
+
+APIDRV = os.path.join(HARNESS, "apidrv")
+ASAN_FLAGS = "-Zsanitizer=address -Cforce-frame-pointers=yes"
+TRIPLE = "x86_64-unknown-linux-gnu"
+
+
+def build_apidrv(cfg, release=False, asan=False):
+    tag = cfg + ("-release" if release else "") + ("-asan" if asan else "")
+    tdir = os.path.join(TARGET, "apidrv-asan" if asan else "apidrv")
+    cmd = ["cargo"] + (["+nightly"] if asan else []) + ["build", "--offline"]
+    if release:
+        cmd.append("--release")
+    if CONFIGS[cfg]:
+        cmd += ["--features", ",".join(CONFIGS[cfg])]
+    if asan:
+        cmd += ["--target", TRIPLE]
+    e = env_base()
+    e["CARGO_TARGET_DIR"] = tdir
+    if asan:
+        e["RUSTFLAGS"] = ASAN_FLAGS
+    rc, out = sh(cmd, cwd=APIDRV, timeout=1800, env=e)
+    if rc != 0:
+        raise Inconclusive(f"apidrv build failed [{tag}]:\n{out[-2500:]}")
+    src = os.path.join(tdir, TRIPLE if asan else "", "release" if release else "debug", "apidrv")
+    dst_dir = os.path.join(WORK, "apidrv", tag)
+    os.makedirs(dst_dir, exist_ok=True)
+    shutil.copy2(src, os.path.join(dst_dir, "apidrv"))
+    return os.path.join(dst_dir, "apidrv")
+
+
+def parse_apidrv(out):
+    res = {"summaries": {}, "violations": [], "samples": {}, "done": False, "config": None}
+    for line in out.splitlines():
+        parts = line.split("|")
+        if parts[0] == "V" and len(parts) >= 4:
+            res["violations"].append({"property": parts[1], "rule": parts[2], "detail": "|".join(parts[3:])})
+        elif parts[0] == "S" and len(parts) >= 3:
+            kv = {}
+            for tok in parts[2].split():
+                if "=" in tok:
+                    k, v = tok.split("=", 1)
+                    kv[k] = int(v) if v.isdigit() else v
+            if parts[1] == "done":
+                res["done"] = True
+            elif parts[1] == "config":
+                res["config"] = kv
+            else:
+                res["summaries"][parts[1]] = kv
+        elif parts[0] == "E" and len(parts) >= 3:
+            res["samples"][parts[1]] = "|".join(parts[2:])
+    return res
+
+
+def run_apidrv(ctx, exe, subs, tag, small=False, count=2000, timeout=1800, env_extra=None, prefix_cmd=None, cwd=None):
+    """Run apidrv natively (or via `cargo miri run` when prefix_cmd is given); fold results into ctx."""
+    args = list(subs) + ["--seed", str(ctx.seed), "--count", str(count)] + (["--small"] if small else [])
+    cmd = (prefix_cmd + ["--"] if prefix_cmd else [exe]) + args
+    e = env_base()
+    if env_extra:
+        e.update(env_extra)
+    rc, out = sh(cmd, cwd=cwd or VERIF, timeout=timeout, env=e)
+    res = parse_apidrv(out)
+    stage = f"apidrv:{tag}:{'+'.join(subs)}"
+    sanitizer_report = ("ERROR: AddressSanitizer" in out) or ("Undefined Behavior" in out) or ("error: unsupported operation" in out and "miri" in tag)
+    if sanitizer_report:
+        blocks = out.count("ERROR: AddressSanitizer") + out.count("Undefined Behavior")
+        ctx.add_violation({"property": ctx.prop, "level": "R", "rule": "sanitizer-report", "stage": stage, "config": tag,
+                           "detail": f"{blocks} sanitizer report(s); first lines: " + "\n".join([l for l in out.splitlines() if "ERROR" in l or "Undefined Behavior" in l or "error:" in l][:6]), "output_tail": out[-3000:]})
+    elif not res["done"]:
+        if rc < 0 or rc in (134, 139):
+            ctx.add_violation({"property": ctx.prop, "level": "R", "rule": "process-died", "stage": stage, "config": tag,
+                               "detail": f"apidrv died rc={rc} (signal) while running {subs}", "output_tail": out[-2000:]})
+        else:
+            ctx.inconclusive.append(f"{stage}: did not finish (rc={rc}): {out[-400:]}")
+            ctx.fatal_inconclusive = True
+    for v in res["violations"]:
+        if v["property"] == ctx.prop or (ctx.prop, v["property"]) in EXTRA_TAGS:
+            v = dict(v)
+            v.update({"level": "R", "stage": stage, "config": tag, "property_original": v["property"], "property": ctx.prop})
+            ctx.add_violation(v)
+    for sub, kv in res["summaries"].items():
+        ctx.coverage["evaluations"] += kv.get("cases", 0)
+    ctx.add_stage(stage, {"summaries": res["summaries"], "config": res["config"], "violations_all_properties": len(res["violations"])})
+    for sub, text in res["samples"].items():
+        if len(ctx.coverage["samples"]) < 10:
+            ctx.coverage["samples"].append({"apidrv": sub, "config": tag, "what": text})
+    return res
+
+
+# violations that a property's check also adopts although the monitor tagged them with a sibling property
+EXTRA_TAGS = {("C05", "C03"), ("C06", "C03"), ("C06", "C02")}
+
+
+def miri_apidrv(ctx, subs, cfg="tc", release=False, count=20):
+    cmd = ["cargo", "+nightly", "miri", "run", "--offline"] + (["--release"] if release else [])
+    if CONFIGS[cfg]:
+        cmd += ["--features", ",".join(CONFIGS[cfg])]
+    tag = f"miri-{cfg}" + ("-release" if release else "")
+    env_extra = {"MIRIFLAGS": "-Zmiri-disable-isolation", "CARGO_TARGET_DIR": os.path.join(TARGET, "apidrv-miri")}
+    return run_apidrv(ctx, None, subs, tag, small=True, count=count, timeout=3000, env_extra=env_extra, prefix_cmd=cmd, cwd=APIDRV)
+
+
+def miri_corpus(ctx, cdir, tags, meta, cfg, shards, limit, release=False):
+    """Oracle-free run of corpus shards under Miri on inputs dumped by the native driver."""
+    native = tags[cfg]
+    ok_cases = 0
+    def one(i):
+        inp = os.path.join(cdir, "results", f"miri-inputs-{i}.txt")
+        os.makedirs(os.path.dirname(inp), exist_ok=True)
+        rc, out = sh([os.path.join(cdir, "bin", native, f"shard{i}"), "--corpus", os.path.join(cdir, "corpus.json"), "--mode", "dump", "--limit", str(limit),
+                      "--inputs", inp, "--seed", str(ctx.seed), "--out", os.path.join(cdir, "results", f"dump{i}.json")], cwd=cdir, timeout=600)
+        if rc != 0:
+            return i, None, "dump failed: " + out[-300:]
+        cmd = ["cargo", "+nightly", "miri", "run", "--offline", "-p", f"shard{i}"] + (["--release"] if release else [])
+        if CONFIGS[cfg]:
+            cmd += ["--features", ",".join(CONFIGS[cfg])]
+        cmd += ["--", "--mode", "bare", "--inputs", inp, "--corpus", "unused"]
+        e = env_base()
+        e["MIRIFLAGS"] = "-Zmiri-disable-isolation"
+        e["CARGO_TARGET_DIR"] = os.path.join(TARGET, "corpus-miri-" + os.path.basename(cdir))
+        try:
+            rc, out = sh(cmd, cwd=cdir, timeout=3000, env=e)
+        except Inconclusive as ex:
+            return i, None, str(ex)
+        return i, out, None
+    # the first shard builds the shared dependencies alone, the rest run in parallel
+    results = [one(shards[0])]
+    with ThreadPoolExecutor(max_workers=NCPU) as ex:
+        results += list(ex.map(one, shards[1:]))
+    total = {"cases": 0, "items": 0, "shards": 0}
+    for i, out, err in results:
+        if err:
+            ctx.inconclusive.append(f"miri corpus shard {i}: {err}")
+            continue
+        if "Undefined Behavior" in out or "BARE-VIOLATION" in out:
+            lines = [l for l in out.splitlines() if "Undefined Behavior" in l or "BARE-VIOLATION" in l or l.strip().startswith("-->")][:8]
+            ctx.add_violation({"property": ctx.prop, "level": "R", "rule": "miri-report", "stage": f"miri-corpus:{cfg}", "config": cfg,
+                               "detail": f"shard {i} under Miri: " + " / ".join(lines), "output_tail": out[-3000:]})
+        summ = [l for l in out.splitlines() if l.startswith("BARE-SUMMARY")]
+        if summ:
+            kv = dict(t.split("=") for t in summ[0].split()[1:])
+            total["cases"] += int(kv["cases"])
+            total["items"] += int(kv["items"])
+            total["shards"] += 1
+        elif "Undefined Behavior" not in out:
+            ctx.inconclusive.append(f"miri corpus shard {i}: no summary: {out[-300:]}")
+    ctx.coverage["evaluations"] += total["cases"]
+    ctx.add_stage(f"miri-corpus:{cfg}{'-release' if release else ''}", total)
+    return total
+
+
+def asan_corpus(ctx, profile, cfg, cap):
+    """Whole stream workload of a corpus in an AddressSanitizer build (nightly)."""
+    cdir, meta, _ = ensure_corpus(ctx, profile, [])
+    tag, out = build_corpus(cdir, cfg, rustflags=ASAN_FLAGS, tag=cfg + "-asan", toolchain="nightly", target=TRIPLE)
+    if tag is None:
+        ctx.inconclusive.append("ASan build of the corpus failed (nightly -Zsanitizer=address): " + out[-600:])
+        return None
+    res = run_shards(cdir, cfg + "-asan", "stream", ctx.seed, ctx.tier, meta["shards"], cap=cap,
+                     env_extra={"ASAN_OPTIONS": "halt_on_error=1:detect_leaks=1:abort_on_error=0"})
+    reports = 0
+    for r in res:
+        if r.get("crashed") and "AddressSanitizer" in r.get("output", ""):
+            reports += 1
+            first = [l for l in r["output"].splitlines() if "ERROR: AddressSanitizer" in l or l.strip().startswith("#0") or l.strip().startswith("#1")][:4]
+            ctx.add_violation({"property": ctx.prop, "level": "R", "rule": "asan-report", "stage": f"asan:{profile}:{cfg}", "config": cfg + "-asan",
+                               "detail": f"shard {r['shard']}: " + " / ".join(first), "output_tail": r["output"][-3000:]})
+            r["crashed"] = False
+            r["inconclusive"] = None
+            r["violations"] = []
+    a = collect_r(ctx, [r for r in res if not ("output" in r and "AddressSanitizer" in r.get("output", ""))], {ctx.prop}, f"R:stream-asan:{profile}:{cfg}")
+    a["asan_report_blocks"] = reports
+    ctx.coverage["evaluations"] += a["cases"]
+    return a
 
 
 STREAM_RULE = ("R-level: every corpus definition is compiled by rustc in the listed feature configurations and run on inputs derived from its own "
@@ -490,9 +670,147 @@ def check_C12(ctx):
     ctx.coverage["distinct_nontrivial"] += a["distinct_cases"]
 
 
+
+def check_C05(ctx):
+    ctx.rules += [STREAM_RULE,
+                  "C05: (i) offline join of per-case observation hashes default vs forbid_unsafe build; any panic while lexing is a violation; (ii) Source::read model in apidrv "
+                  "(u8, &[u8;1..=16], &[u8;32]; str/[u8]/String/Vec/&str/Box<str>; lengths 0..=40; offsets 0..=len+9 and around usize::MAX) in debug and release, default and forbid_unsafe; "
+                  "(iii) the same workloads in an AddressSanitizer build with every source in an exactly sized heap block (front/back aligned); (iv) corpus shards and apidrv under Miri. "
+                  "Non-trivial: distinct (definition, input, observation) cases; in-range reads compared byte for byte."]
+    cdir, meta, tags, aggs = stage_stream(ctx, "mixed", list(CONFIGS), {"C05"})
+    fold_stream_cov(ctx, aggs, "distinct_cases")
+    n = obs_join(ctx, cdir, tags["tc"], tags["tc_safe"], "stream", meta["shards"], "default vs forbid_unsafe (tail-call)")
+    n += obs_join(ctx, cdir, tags["sm"], tags["sm_safe"], "stream", meta["shards"], "default vs forbid_unsafe (state machine)")
+    ctx.add_stage("join:unsafe-vs-safe", {"cases_compared": n})
+    rel_cfgs = ["tc", "tc_safe"] if ctx.tier == "quick" else list(CONFIGS)
+    for cfg in CONFIGS:
+        r = run_apidrv(ctx, build_apidrv(cfg), ["read", "long"], cfg)
+        ctx.coverage["distinct_nontrivial"] += r["summaries"].get("read", {}).get("returned_some", 0) if cfg == "tc" else 0
+    for cfg in rel_cfgs:
+        run_apidrv(ctx, build_apidrv(cfg, release=True), ["read", "long"], cfg + "-release")
+    if ctx.tier == "thorough":
+        cdir2, meta2, tags2, aggs2 = stage_stream(ctx, "mixed", ["tc", "tc_safe"], {"C05"}, release=True, name="R:stream-release")
+        obs_join(ctx, cdir2, tags2["tc"], tags2["tc_safe"], "stream", meta2["shards"], "release: default vs forbid_unsafe")
+    # sanitizers
+    run_apidrv(ctx, build_apidrv("tc", asan=True), ["read", "bump", "hist", "long"], "tc-asan", small=False, count=300, env_extra={"ASAN_OPTIONS": "halt_on_error=1:detect_leaks=1"})
+    a = asan_corpus(ctx, "mixed", "tc", cap=tier_params(ctx.tier)["cap"] // (2 if ctx.tier == "quick" else 1))
+    if ctx.tier == "thorough":
+        asan_corpus(ctx, "mixed", "sm", cap=tier_params(ctx.tier)["cap"])
+    miri_apidrv(ctx, ["read"], "tc", release=False)
+    shards = [0, 1, 2, 3] if ctx.tier == "quick" else list(range(meta["shards"]))
+    miri_corpus(ctx, cdir, tags, meta, "tc", shards, limit=10 if ctx.tier == "quick" else 40)
+    if ctx.tier == "thorough":
+        miri_apidrv(ctx, ["read"], "tc", release=True)
+        miri_corpus(ctx, cdir, tags, meta, "sm", shards, limit=25)
+        miri_corpus(ctx, cdir, tags, meta, "tc", shards, limit=25, release=True)
+    ctx.assumptions += ["AddressSanitizer only sees accesses that land in a red zone (adjacent overflows); Miri interprets far fewer runs; neither is a proof of memory safety",
+                        "the observation hash covers results, spans, callback log, accessor problems and panics"]
+
+
+def check_C06(ctx):
+    ctx.rules += [STREAM_RULE,
+                  "C06: offline join of per-case observation hashes (results, spans, callback invocation log) tail-call vs state-machine build, default and forbid_unsafe, on the mixed and the callbacks corpus; "
+                  "stack probe: callbacks record the address of a local at the 1st, 1000th and 10^6th consecutive skip and for tokens of 10 and 4*10^6 bytes through a two-state loop on a 256 KiB thread, "
+                  "the spread must be 0; long inputs (2 MiB) with closed-form expectations. Non-trivial: distinct (definition, input, observation) cases."]
+    total = 0
+    for profile in ("mixed", "callbacks"):
+        cdir, meta, tags, aggs = stage_stream(ctx, profile, list(CONFIGS), {"C06"})
+        fold_stream_cov(ctx, aggs, "distinct_cases")
+        total += obs_join(ctx, cdir, tags["tc"], tags["sm"], "stream", meta["shards"], f"{profile}: tail-call vs state machine")
+        total += obs_join(ctx, cdir, tags["tc_safe"], tags["sm_safe"], "stream", meta["shards"], f"{profile}: tail-call vs state machine (forbid_unsafe)")
+    ctx.add_stage("join:tc-vs-sm", {"cases_compared": total})
+    small = False
+    for cfg in ("sm", "sm_safe"):
+        run_apidrv(ctx, build_apidrv(cfg), ["stack", "long"], cfg, small=small)
+    run_apidrv(ctx, build_apidrv("sm", release=True), ["stack", "long"], "sm-release", small=small)
+    if ctx.tier == "thorough":
+        run_apidrv(ctx, build_apidrv("sm_safe", release=True), ["stack", "long"], "sm_safe-release")
+        cdir2, meta2, tags2, aggs2 = stage_stream(ctx, "mixed", ["tc", "sm"], {"C06"}, release=True, name="R:stream-release")
+        obs_join(ctx, cdir2, tags2["tc"], tags2["sm"], "stream", meta2["shards"], "release: tail-call vs state machine")
+    ctx.assumptions += ["the tail-call lexer is documented to use stack proportional to consecutive skips; no stack claim is checked for it"]
+
+
+def check_C13(ctx):
+    ctx.rules += ["R-level: definitions whose patterns carry recording callbacks generated as source text (every supported return type, labelled and inline, positional and named, with and without "
+                  "custom error type / error callback, optional bump) are compiled in 4 configurations; decisions are pure functions of the matched text; every invocation is logged in Extras; "
+                  "the checker replays the reference segmentation through the documented table and demands equality of the item stream and of the invocation log (exactly once, in order, span and slice). "
+                  "Non-trivial: runs in which at least one callback was invoked."]
+    cfgs = list(CONFIGS)
+    cdir, meta, tags, aggs = stage_stream(ctx, "callbacks", cfgs, {"C13"})
+    for cfg, a in aggs.items():
+        ctx.coverage["evaluations"] += a["cases"]
+    first = next(iter(aggs.values()))
+    ctx.coverage["distinct_nontrivial"] += first["runs_with_callbacks"]
+    ctx.coverage["callback_invocations_observed"] = first["callback_invocations"]
+    ctx.coverage["callback_bumps_observed"] = first["callback_bumps"]
+    corpus = json.load(open(os.path.join(cdir, "corpus.json")))
+    kinds = {}
+    for d in corpus["defs"]:
+        for p in d["def"]["pats"]:
+            if p.get("cb"):
+                kinds[p["cb"]["ret"]] = kinds.get(p["cb"]["ret"], 0) + 1
+    ctx.coverage["callback_return_types_in_corpus"] = kinds
+    missing = [k for k in ("Unit", "Bool", "Val", "OptVal", "ResVal", "SkipAlways", "ResSkip", "FilterVal", "FilterResVal", "FilterUnit", "Tok", "ResTok", "FilterTok", "FilterResTok",
+                           "SkUnit", "SkSkip", "SkResUnit", "SkResSkip") if k not in kinds]
+    if missing:
+        ctx.inconclusive.append(f"callback return types absent from this corpus: {missing}")
+
+
+def check_C14(ctx):
+    ctx.rules += ["apidrv hist: random histories (5..40 steps) over {next, in-range bump, clone + advance the clone then the original, store/drop clones with heap-owning extras, morph A<->B, spanned vs manual, extras mutation}, "
+                  "str and byte sources, ordinary and partial lexers; a model (start, end, partial, extras) predicts every accessor after every step and next() is predicted by a fresh lexer over source[end..]; "
+                  "4 feature configs, debug and release, plus Miri and ASan. The corpus stream run also checks slice()/remainder()/spanned() on every item. Non-trivial: histories executed."]
+    count = 3000 if ctx.tier == "quick" else 200000
+    for cfg in CONFIGS:
+        r = run_apidrv(ctx, build_apidrv(cfg), ["hist"], cfg, count=count)
+        if cfg == "tc":
+            ctx.coverage["distinct_nontrivial"] += r["summaries"].get("hist", {}).get("cases", 0)
+    run_apidrv(ctx, build_apidrv("tc", release=True), ["hist"], "tc-release", count=count)
+    run_apidrv(ctx, build_apidrv("sm_safe", release=True), ["hist"], "sm_safe-release", count=count)
+    run_apidrv(ctx, build_apidrv("tc", asan=True), ["hist"], "tc-asan", count=count // 4, env_extra={"ASAN_OPTIONS": "halt_on_error=1:detect_leaks=1"})
+    miri_apidrv(ctx, ["hist"], "tc", count=40 if ctx.tier == "quick" else 400)
+    _, _, _, aggs = stage_stream(ctx, "mixed", ["tc", "sm_safe"], {"C14"})
+    for cfg, a in aggs.items():
+        ctx.coverage["evaluations"] += a["cases"]
+
+
+def check_C15(ctx):
+    ctx.rules += ["apidrv bump: sources of 0..24 bytes with 1-4 byte characters (str) and the same as bytes; every lexer position reachable by next(); n in 0..=len+2 and around usize::MAX, usize::MAX/2, usize::MAX-end, usize::MAX-len; "
+                  "outcome (return / panic) versus model; the span invariant (start <= end <= len, char boundaries) is checked BEFORE slice()/remainder() are called, also after a caught panic and after further next() calls; "
+                  "debug and release x default and forbid_unsafe; the same under Miri (debug and --release) and ASan. Non-trivial: every (source, position, n) case (both successful and panicking bumps occur)."]
+    for cfg in CONFIGS:
+        r = run_apidrv(ctx, build_apidrv(cfg), ["bump"], cfg)
+        if cfg == "tc":
+            ctx.coverage["distinct_nontrivial"] += r["summaries"].get("bump", {}).get("cases", 0)
+        run_apidrv(ctx, build_apidrv(cfg, release=True), ["bump"], cfg + "-release")
+    run_apidrv(ctx, build_apidrv("tc", asan=True), ["bump"], "tc-asan", env_extra={"ASAN_OPTIONS": "halt_on_error=1:detect_leaks=1"})
+    miri_apidrv(ctx, ["bump"], "tc", release=True)
+    if ctx.tier == "thorough":
+        miri_apidrv(ctx, ["bump"], "tc", release=False)
+        miri_apidrv(ctx, ["bump"], "sm_safe", release=True)
+
+
+def check_C20(ctx):
+    ctx.rules += ["Read-trace hook armed in the tail-call and state-machine drivers: per match attempt (Next/Restart to the next) read offsets never decrease, the first read is at the end of the item just produced, "
+                  "reads <= 4*(examined+2)+16; whole corpus workload (every 4th run traced, budget armed on all) plus adversarial repetition patterns ((a|aa)+b, (a*)*b, (a|b)*abb, (x+x+)+y, greedy dot, nested counted) "
+                  "on near-miss inputs up to 2^16+7 bytes. Non-trivial: traced runs; evidence carries events seen and the maximal reads/byte ratio observed."]
+    cfgs = ["tc", "sm"] if ctx.tier == "quick" else list(CONFIGS)
+    _, _, _, aggs = stage_stream(ctx, "mixed", cfgs, {"C20"})
+    for cfg, a in aggs.items():
+        ctx.coverage["evaluations"] += a["cases"]
+    first = next(iter(aggs.values()))
+    ctx.coverage["distinct_nontrivial"] += first["traced_runs"]
+    ctx.coverage["read_events_observed"] = sum(a["read_events"] for a in aggs.values())
+    ctx.coverage["max_reads_per_examined_byte"] = max(a["max_reads_per_examined_byte"] for a in aggs.values())
+    for cfg in cfgs:
+        r = run_apidrv(ctx, build_apidrv(cfg), ["adv"], cfg)
+        ctx.coverage["read_events_observed"] += r["summaries"].get("adv", {}).get("read_events", 0)
+
+
 CHECKS = {
     "C01": check_C01, "C02": check_C02, "C03": check_C03, "C04": check_C04, "C07": check_C07, "C08": check_C08,
     "C09": check_C09, "C10": check_C10, "C11": check_C11, "C12": check_C12,
+    "C05": check_C05, "C06": check_C06, "C13": check_C13, "C14": check_C14, "C15": check_C15, "C20": check_C20,
 }
 
 
